@@ -729,7 +729,7 @@ func (sc *scenario) genNeighbours(n *node.Node, now int64) []trace.Neighbour {
 		case roll < 52:
 			g := pick(r, []string{"xx", "", "{}", "[1,2]", "[null]", `[{"timestamp":"x"}]`, "null", "[]"})
 			res = append(res, trace.Neighbour{Target: target, Kind: "garbage", Answer: func(uint64, int) ([]byte, error) { return []byte(g), nil }})
-		case roll < 55:
+		case roll < 53: // rare here (each costs the 1.5 s real-time timeout); silence is the subject of profile faults
 			res = append(res, trace.Neighbour{Target: target, Kind: "silent", Silent: true})
 		default:
 			// a chain derived from some node's chain (own included): truncated / stale / broken at h / flip-flop
